@@ -142,6 +142,8 @@ Definition mstep (tmo_ : Z) (retries_ : nat) (s : mst) (e : tr) : mst :=
   (* a peer ERROR ends the transfer silently *)
   | MSilent, TCloseFile => mset s MCloseS (m_now s)
   | MSilent, TSend _ _ _ => mfail s "C09:peer_error_not_silent"
+  | MSilent, TTimeout _ => mfail s "C02:continues_after_peer_error"
+  | MSilent, TRecv _ _ _ => mfail s "C02:continues_after_peer_error"
   | MSilent, _ => mfail s "C20:release"
   (* nothing more is sent; socket and file are released *)
   | MCloseF, TCloseFile => mset s MCloseS (m_now s)
